@@ -325,6 +325,29 @@ func TestC06(t *testing.T) {
 		groups = append(groups, sweepGroups(v13, false, some)...)
 		params["sweep"] = "every W in 1..130 (12-psk), W in " + fmt.Sprint(some) + " (12-cid, 13-direct): n=W+3, 8-10 sequences visiting every distance 0..W+1 as replay and as late first arrival"
 	}
+	// boundaries of the sequence-number encoding: the sender's counter is preset just below a multiple of
+	// 2^16 (DTLS 1.3 carries 16 bits of the number; the receiver reconstructs the rest), 2^8, 2^32; then every
+	// arrival sequence of length 3 (quick) / 4 (thorough) over the 3 / 4 records that straddle the boundary
+	bounds := []uint64{1<<16 - 2, 2<<16 - 2, 1<<8 - 2, 1<<32 - 2}
+	for _, v := range []checks.Variant{v13, psk} {
+		for _, at := range bounds {
+			if v.V13 && at > 1<<16 {
+				// DTLS 1.3 reconstructs a number from 16 wire bits relative to the newest record it opened: a
+				// receiver that has seen only single-digit numbers cannot follow a jump beyond the first multiple
+				// of 2^16 (that is the protocol, not the library); 65 536 real writes are out of budget
+				continue
+			}
+			n, l := 3, 3
+			if env.Thorough() {
+				n, l = 4, 4
+			}
+			for _, w := range []int{0, 4} {
+				sc := scen{V: v, W: w, N: n, PresetSeq: at}
+				groups = append(groups, group{ID: fmt.Sprintf("boundary/%s/L%d", sc, l), Sc: sc, Seqs: allSeqs(n, l, nil)})
+			}
+		}
+	}
+	params["boundary"] = "13-direct and 12-psk, sender counter preset to 2^16-2, 2^17-2, 2^8-2, 2^32-2 (primer record delivered), then every arrival sequence with repetitions of length 3 (thorough 4) over the next 3 (4) records, W default and 4; DTLS 1.3 only at 2^16-2 and 2^8-2 (later boundaries are unreachable by one jump of the counter)"
 	// smallest window size whose bitmap does not fit the "multiple of 64 / at most half a word" shapes:
 	// every arrival sequence of length 3 over 3 records (keeps reproducers of window-size findings minimal)
 	groups = append(groups, smallGroups(psk, false, false, []int{63}, 3, 3)...)
